@@ -151,14 +151,19 @@ def parseExtensions (lines : List Bytes) : List Ext :=
 inductive KeyRes where
   | valid
   | invalid
-  /-- `base64.StdEncoding.Decode` indexes past the 16-byte buffer -/
+  /-- `base64.StdEncoding.Decode` indexes past its destination buffer (proved unreachable since the
+  buffer has `DecodedLen(len(s))` bytes; before commit 9d680c6d it had 16 and 24-character keys
+  decoding to 17/18 bytes, e.g. `AAAAAAAAAAAAAAAAAAAAAAAA`, panicked) -/
   | panic
 deriving Repr, DecidableEq
+
+/-- `base64.StdEncoding.DecodedLen` (padded encoding) -/
+def decodedLen (n : Nat) : Nat := n / 4 * 3
 
 /-- `isValidChallengeKey` -/
 def isValidChallengeKey (s : Bytes) : KeyRes :=
   if s.length ≠ 24 then .invalid
-  else match goDecode 16 s with
+  else match goDecode (decodedLen s.length) s with
     | .ok n => if n = 16 then .valid else .invalid
     | .err => .invalid
     | .panic => .panic
